@@ -313,11 +313,30 @@ def core_level(k):
     return lv
 
 
+def logic_closure():
+    """every AND/OR/XOR/NOT tree of depth <= 3 whose binary nodes have a depth-limited tree on one side and a leaf
+    comparison on the other (a bracket decision depends on grandparent, NOT and grandchild connectives)"""
+    c = [["cmp", ">", A_, ONE], ["cmp", "<", B_, ONE], ["cmp", "=", A_, B_]]
+    ops = ["AND", "OR", "XOR"]
+    lv = [list(c)]
+    for depth in range(3):
+        prev = lv[-1]
+        new = [["not", x] for x in prev]
+        for op in ops:
+            for x in prev:
+                leaf = c[(depth + 1) % 3]
+                new.append(["logic", op, x, leaf])
+                new.append(["logic", op, leaf, x])
+        lv.append(new)
+    return lv[1] + lv[2] + lv[3]
+
+
 def chunks(tier, seed):
     out = [{"kind": "triples", "part": i, "of": 16} for i in range(16)]
+    out += [{"kind": "logic3", "part": i, "of": 8} for i in range(8)]
+    out += [{"kind": "spine3", "part": i, "of": 16} for i in range(16)]
     if tier == "thorough":
         out += [{"kind": "core2", "part": i, "of": 64} for i in range(64)]
-        out += [{"kind": "spine3", "part": i, "of": 16} for i in range(16)]
     return out
 
 
@@ -330,6 +349,10 @@ def expand(chunk):
         if "t" not in _CACHE:
             _CACHE["t"] = list(triples())
         src = _CACHE["t"]
+    elif k == "logic3":
+        if "l3" not in _CACHE:
+            _CACHE["l3"] = logic_closure()
+        src = _CACHE["l3"]
     elif k == "core2":
         if "c2" not in _CACHE:
             _CACHE["c2"] = core_level(2)[2]
